@@ -2102,6 +2102,10 @@ func (in *Interp) callFunction(st *State, fn *ssa.Function, args []Value, bindin
 		in.callStack = in.callStack[:len(in.callStack)-1]
 	}()
 	if in.callDepth > maxCallDepth {
+		// recursion deeper than any structure of the harness can justify: recorded like an unwinding failure (its model
+		// is replayed natively, where unbounded recursion ends in a stack overflow), and the job stops here
+		in.oblige("unwind", fmt.Sprintf("recursion deeper than %d calls in %s", maxCallDepth, name), st.abs(), in.posOf(instr))
+		in.unwindAbort = true
 		unsupported("call depth exceeded in %s", name)
 	}
 	defer func() { in.callDepth-- }()
